@@ -68,9 +68,30 @@ _Bool xv_lower_dead;
 /* ghost indices (never assigned): into a message payload / an array */
 long xv_j;
 
+/* ghost constants (never assigned): bound to entry values by a requires clause of the contract under proof */
+uint8_t xv_g_sb_j, xv_g_sb_k, xv_g_rb_j;
+
+size_t xv_keep;            /* ghost offset whose byte the ut_realloc model preserves (env/base.h) */
+
 /* ---- ghost: "the calling thread was put to sleep" (C05) */
 _Bool xv_blocked;
 
 #define XV_OFF_MAX (1L << 50)
+
+#ifdef XV_CBMC
+/* C zero-initialises objects of static storage duration; ghost state must instead be ARBITRARY at the start of every
+ * harness (the contracts' requires clauses then restrict it).  Every harness calls this first (checked by bin/xv). */
+static inline void xv_ghost_havoc(void)
+{
+    xv_errno = nondet_int();
+    xv_k = nondet_long(); xv_j = nondet_long();
+    xv_tx_off = nondet_long(); xv_tx_k = nondet_uchar(); xv_tx_k_set = nondet_bool();
+    xv_rx_off = nondet_long(); xv_rx_k = nondet_uchar(); xv_rx_eof = nondet_bool();
+    xv_lower_dead = nondet_bool();
+    xv_g_sb_j = nondet_uchar(); xv_g_sb_k = nondet_uchar(); xv_g_rb_j = nondet_uchar();
+    xv_blocked = nondet_bool();
+    xv_keep = nondet_size_t();
+}
+#endif
 
 #endif
